@@ -158,29 +158,52 @@ func (eng *Engine) targetsFor(prop string) ([]checkTarget, []string) {
 	return out, missing
 }
 
-// scenarios expands the type scenarios of a contract.
-func (eng *Engine) scenarios(t checkTarget) []map[string]types.Type {
-	if t.fc == nil || len(t.fc.Scenario) == 0 {
-		return []map[string]types.Type{nil}
+type scenarioT struct {
+	types  map[string]types.Type
+	name   string
+	assume string // extra assumption (value variant)
+	cover  bool   // the variants-cover-the-precondition obligation only
+}
+
+// scenarios expands the type scenarios and value variants of a contract.
+func (eng *Engine) scenarios(t checkTarget) []scenarioT {
+	if t.fc == nil {
+		return []scenarioT{{}}
 	}
-	// single scenario parameter supported
-	var out []map[string]types.Type
-	for p, ts := range t.fc.Scenario {
-		for _, tn := range ts {
-			c := &specCtx{pkg: t.fn.Pkg.Pkg}
-			x, err := parseTypeExpr(tn)
-			if err != nil {
-				continue
+	var out []scenarioT
+	if len(t.fc.Scenario) > 0 {
+		// single scenario parameter supported
+		for p, ts := range t.fc.Scenario {
+			for _, tn := range ts {
+				c := &specCtx{pkg: t.fn.Pkg.Pkg}
+				x, err := parseTypeExpr(tn)
+				if err != nil {
+					continue
+				}
+				ty := c.lookupType(x)
+				if ty == nil {
+					continue
+				}
+				out = append(out, scenarioT{types: map[string]types.Type{p: ty}, name: types.TypeString(ty, func(p *types.Package) string { return "" })})
 			}
-			ty := c.lookupType(x)
-			if ty == nil {
-				continue
-			}
-			out = append(out, map[string]types.Type{p: ty})
+			break
 		}
-		break
+		return out
 	}
-	return out
+	if vs := t.fc.Lists["variant"]; len(vs) > 0 {
+		var all []string
+		for _, v := range vs {
+			i := strings.Index(v.Expr, ":")
+			if i < 0 {
+				continue
+			}
+			out = append(out, scenarioT{name: strings.TrimSpace(v.Expr[:i]), assume: strings.TrimSpace(v.Expr[i+1:])})
+			all = append(all, "("+strings.TrimSpace(v.Expr[i+1:])+")")
+		}
+		out = append(out, scenarioT{name: "variants-cover", assume: strings.Join(all, " || "), cover: true})
+		return out
+	}
+	return []scenarioT{{}}
 }
 
 func cmdCheck(args []string) int {
@@ -225,11 +248,7 @@ func cmdCheck(args []string) int {
 			continue
 		}
 		for _, sc := range eng.scenarios(t) {
-			name := ""
-			for _, ty := range sc {
-				name = types.TypeString(ty, func(p *types.Package) string { return "" })
-			}
-			results = append(results, eng.verifyFunc(t.fn, t.fc, t.props, sc, name))
+			results = append(results, eng.verifyFunc(t.fn, t.fc, t.props, sc))
 		}
 	}
 	var obls, covers []*Obligation
@@ -313,11 +332,7 @@ func cmdDump(args []string) int {
 	}
 	t := checkTarget{fn: fn, fc: fc, props: props}
 	for _, sc := range eng.scenarios(t) {
-		name := ""
-		for _, ty := range sc {
-			name = types.TypeString(ty, func(p *types.Package) string { return "" })
-		}
-		r := eng.verifyFunc(fn, fc, props, sc, name)
+		r := eng.verifyFunc(fn, fc, props, sc)
 		if r.Err != nil {
 			fmt.Println("ERROR:", r.Err)
 			return 2
